@@ -1,23 +1,39 @@
 """C08 — Text and categorical columns are dummy-coded; the matrix is always numeric.
 
 Tie between model and source
-* the kind table `Gen.kindTable` is regenerated on every run from the live `_is_categorical` of the
-  pandas materializer, the narwhals materializer on a pandas frame and the narwhals materializer on a
-  pyarrow table, applied to one probe series per dtype (`harness/translate.py: dtype_builders`);
-  `Props.C08.text_and_categorical_are_categorical` / `numeric_is_numerical` are decided over it.
-* correspondence stream `dtypes` (engine `c08`, model `Model/Encode.lean`): for every dtype constructor
-  available a frame with such a column (plus a float column, sometimes more columns of other dtypes),
-  the real `model_matrix("A + a", frame, output=…, materializer=…)` for each output x materializer
-  (pandas; narwhals on the pandas frame; narwhals on the pyarrow table) against `Model.Encode.build`
-  run on the same values and the generated table: column names and exact cell values.
-* stream `levels`: `encode_contrasts` level discovery on random value lists against `Model.Encode.levels`.
+* generated tables (harness/translate.py, regenerated from the live package on every run; the theorems are decided over them):
+  `Gen.kindTable` (`_is_categorical` of the pandas materializer, of the narwhals materializer on a pandas frame and on a
+  pyarrow table, on one probe series per dtype), `Gen.dtypeTables` (dtype of the returned matrix per dtype label x route x
+  output, under a literal scale, of the intercept, of two columns stacked by the live `_combine_columns`),
+  `Gen.FactorFormats` (the `str.format` templates of column names), `Gen.materializerOutputs` (registered output types).
+* stream `dtypes` (engine `c08`, ops `build` + `history`): for every dtype constructor available a frame with such a column
+  (plus a float column, sometimes more columns of other dtypes), the real `model_matrix("A + a", frame, output=…, materializer=…)`
+  for each output x route against BOTH models (`Model/Encode.lean: build`, `Model/Encode2.lean: runHistory`): column names,
+  exact cell values, dtype(s) of the container; the two models against each other.
+* stream `history` (op `history`): 2-4 `get_model_matrix` calls on ONE materializer object (pandas; narwhals on a pandas frame,
+  on a pyarrow table, on a narwhals frame), each with its own output type (pandas / numpy / sparse / narwhals), null policy, rank
+  setting and formula of plain, `C(…)` (treatment base, `levels=`, the coding class, user-given contrast matrix / dictionary) and
+  literal-scaled terms over text, categorical, numeric, bool and mixed-object columns; calls fail at arbitrary positions (a
+  treatment base that is no level -- raised while a LATER term is encoded, after earlier terms were encoded and cached --, an
+  unknown name, a repeated level, nulls under `raise`, ragged / misaligned contrast weights). Every call is compared with the
+  model call by call and (oracle) with a NEW materializer on the same data.
+  Variants: one call through `model_matrix` with and without naming the materializer (`for_data` / `SUPPORTS_INPUT`), on a dict
+  of lists, a dict of scalars, a record array; corner frames (no level at all, one level, a matrix without columns) for
+  every route x output.
+* streams `levels` / `levels2` (ops `levels`, `levels2`): `encode_contrasts` level discovery on random value lists (text; Python
+  scalars: integers, booleans, floats, bytes, mixtures that Python cannot sort; declared levels; an unknown output type) and the
+  sparse dummy encoder `categorical_encode_series_to_sparse_csc_matrix` called directly (with and without `drop_first`) against
+  `Model/PyLevels.lean` (first-seen distinct values, insertion sort with a comparison that can raise, labels, codes).
+* stream `apply` (op `apply`): `TreatmentContrasts(base).apply(dummies, levels, reduced_rank, output=None)` on a pandas frame, a numpy
+  array and a sparse matrix against `Enc2.applyTreatment`.
 
-Oracle (implementation only, straight from the property text): the materialisation succeeds; every
-cell is a number; a text column yields one indicator column per
-level with the levels in sorted (code-point) order, a categorical-dtype column in declared order
-(all levels or all but the first, depending on rank reduction, which is C03's concern); every
-indicator column is 1 exactly on the rows holding its level; numeric and bool columns come out
-unchanged under their own name; the intercept is a column of ones.
+Oracle (implementation only, straight from the property text): the materialisation of a valid request succeeds; every cell is
+a number and the container has an integer or floating-point dtype (every column of a frame, the array as a whole); a text
+column yields one indicator column per level with the levels in sorted (code-point) order, a categorical dtype / `levels=` in
+declared order (all levels, or all but the base level under rank reduction); every indicator column is (the literal scale
+times) 1 exactly on the rows holding its level; user-given contrast columns hold the weight written for the row's level;
+numeric and bool columns come out unchanged (times the scale) under their own name; the intercept is a column of ones; every
+call on a reused materializer returns what a new materializer returns.
 """
 from __future__ import annotations
 
@@ -34,6 +50,7 @@ from harness import translate
 PROPERTY = "C08"
 ENGINE = "c08"
 REQUIRED_THEOREMS = [
+    # kind table, first model (Model/Encode.lean)
     "text_and_categorical_are_categorical",
     "numeric_is_numerical",
     "levels_sorted",
@@ -45,38 +62,108 @@ REQUIRED_THEOREMS = [
     "numeric_passthrough",
     "cells_numeric",
     "cells_numeric_live",
+    # level inference over Python scalars (Model/PyLevels.lean)
+    "infer_levels_text",
+    "infer_levels_complete",
+    "infer_levels_first_seen",
+    "sort_fails_iff_unorderable",
+    "sort_sorted_perm",
+    "infer_levels_order",
+    "declared_levels",
+    "codes_exact",
+    # encoding of one factor (Model/Encode2.lean)
+    "dummy_column_is_level_indicator",
+    "treatment_base_missing_is_error",
+    "treatment_columns",
+    "text_or_categorical_column_is_categorical_factor",
+    "numeric_column_is_numerical_factor",
+    "numeric_term_passthrough",
+    "plain_categorical_encoding",
+    "text_term_sorted_indicators",
+    "custom_contrast_cells",
+    "custom_shape_mismatch_is_error",
+    "scale_multiplies_cells",
+    "intercept_column",
+    # one object, any history of calls
+    "history_is_fresh_builds",
+    "history_cells_numeric",
+    "history_cells_numeric_live",
+    "fresh_matrix_is_spec",
+    "history_is_spec",
+    # hand-written constants against the live package; dtypes
+    "live_factor_formats",
+    "live_outputs_modelled",
+    "live_dtype_tables_numeric",
+    "matrix_dtypes_numeric",
+    "matrix_dtypes_numeric_live",
 ]
 TRUSTED = [
-    "modelled, not verified: pandas' `astype('category')` / `pandas.Categorical` (level discovery and its sorting), "
-    "`pandas.get_dummies`, narwhals' and pyarrow's dtype mapping and conversions (`Series.to_pandas`, `Table.from_pandas`); "
-    "they are observed through the correspondence, not proved",
-    "the dtype probe list of harness/translate.py (`dtype_builders`): the kind theorems quantify over exactly the dtypes "
-    "listed there (every constructor that works with the installed pandas/pyarrow)",
+    "modelled, not verified: pandas' `factorize` / `safe_sort` / `Categorical` (the model states what they compute -- first-seen "
+    "distinct values under Python `==`, a comparison sort, numbers before text, first-seen order when Python cannot sort, codes "
+    "-- and the `levels2` stream compares it with pandas on every run), `pandas.get_dummies`, numpy/scipy/pandas type promotion "
+    "and narwhals' / pyarrow's conversions (`Series.to_pandas`, `Table.from_pandas`, `from_dict`, `to_numpy`): they enter through "
+    "the generated dtype tables and the correspondence, not through proofs",
+    "the dtype probe list of harness/translate.py (`dtype_builders`): the kind and dtype theorems quantify over exactly the dtypes "
+    "listed there (every constructor that works with the installed pandas/pyarrow); the dtype of a matrix with several columns is "
+    "modelled as a left fold of the two-column stacking table (checked per case)",
     "rank reduction is modelled only for main-effects formulas (a categorical main effect is reduced iff the intercept or an "
-    "earlier categorical main effect is present); the general rule is property C03",
+    "earlier categorical main effect is present); the general rule is property C03; interactions are C02; coding matrices other "
+    "than treatment coding and user-given weights are C11",
+    "`repr(float)` of a level is modelled only for values with a short terminating decimal expansion (the generator stays "
+    "inside); `bytes` labels only for printable ASCII",
+    "the `reset = false` variant of the history model (the tree without the cache reset at the start of `get_model_matrix`) was "
+    "compared with that tree by hand (sparse column objects inside a pandas frame; pandas' length error), not on every run",
 ]
 ASSUMPTIONS = [
     "'numeric columns pass through unchanged' is checked on exact values (integers as Python ints, never via float "
     "text): with output='pandas' (one dtype per column) and for a matrix with a single column every cell must equal "
     "its input exactly; in a numpy array / sparse matrix with several columns a cell may instead hold the float64 image "
     "of its input, because such a container has ONE dtype for all columns and stacking an integer column with the "
-    "intercept, a float column or a sparse dummy column necessarily yields float64 — that rounding is the container's "
+    "intercept, a float column or a sparse dummy column necessarily yields float64 -- that rounding is the container's "
     "(numpy/scipy type promotion), not a change made by the library",
-    "cells_numeric is stated for the model's `build` under the hypothesis `TableOK` (text and categorical dtypes classified "
-    "CATEGORICAL); `cells_numeric_live` discharges the hypothesis for the generated table of the current tree",
-    "category labels are compared by their printed form (`str(level)`), text values are Python `str` (mixed-type object "
-    "columns are outside the model)",
+    "'the matrix is always numeric' is read as: every cell is a number AND the container's dtype is an integer or floating-point "
+    "dtype (each column of a pandas / native frame, the numpy array, the sparse matrix); an object array of Python numbers does "
+    "not qualify (numpy.linalg rejects it). The tree under test needed a repair for that (see DESIGN: text in an extension "
+    "string dtype with output='numpy')",
+    "cells_numeric / history_cells_numeric are stated under the hypothesis `TableOK` (text and categorical dtypes classified "
+    "CATEGORICAL); the `_live` forms discharge it for the generated table of the current tree; matrix_dtypes_numeric under the "
+    "hypothesis that the generated dtype tables hold numeric dtypes only, discharged by live_dtype_tables_numeric",
+    "fresh_matrix_is_spec / history_is_spec assume that no two terms of one formula share a factor -- the formula parser "
+    "guarantees it (a second term over the same factors is the same term or a syntax error)",
+    "nominated levels (`levels=`, a treatment base) are matched to values by Python `==` in the model; pandas matches by its own "
+    "typed rules where a boolean meets an integer category (`True` is not the category `1`), so such combinations are left out; "
+    "category labels are compared by their printed form (`str(level)`); an object column may mix text, integers, booleans and "
+    "bytes (floats in object columns and levels whose labels coincide, like 9 and '9', are left out: pandas converts the former "
+    "and the latter give two columns one name)",
     "na_action='ignore' is exercised only where a null is a float NaN or a text/categorical null (nullable extension "
-    "dtypes hand back `pandas.NA` objects under 'ignore'; that is the caller's request, not an encoding matter)",
+    "dtypes hand back `pandas.NA` objects under 'ignore'; that is the caller's request, not an encoding matter); dtypes are "
+    "compared only for matrices with at least one row and for frame input (pandas re-infers the dtypes of a dict / record array)",
+    "a literal scale is applied only to columns whose scaled values stay inside their storage dtype (wrap-around in narrow "
+    "integer dtypes is the known finding C02-F1); `C(<float16 column>)` is left out (pandas has no float16 index)",
+    "known finding C08-F1 (classified, not a violation): output='narwhals' with a matrix that has no column at all raises TypeError",
 ]
 RULE = (
     "dtypes: every dtype label of translate.dtype_builders x {pandas, narwhals on pandas, narwhals on pyarrow} x "
     "{pandas, numpy, sparse} with formula `A + a` (A of the dtype under test, a float64), random values (1-6 rows; text from a "
-    "pool with upper/lower case, digits, non-ASCII, spaces; categorical with random declared order and unused categories; "
-    "nulls where the dtype can hold them; integer columns of every width hold the extremes of their dtype and the "
-    "neighbours of +-2**53), the same for every integer dtype standing alone (`0 + n`, both rank settings), plus random frames of 1-3 columns of random dtypes with intercept on/off, "
-    "ensure_full_rank on/off, na_action drop/raise/ignore; levels: random value lists with/without declared levels. "
-    "non-trivial = a text or categorical column with at least two distinct values; distinct by canonical JSON"
+    "pool with upper/lower case, digits, non-ASCII, spaces, names that look library-internal; categorical with random declared "
+    "order and unused categories; nulls where the dtype can hold them; integer columns of every width hold the extremes of their "
+    "dtype and the neighbours of +-2**53), the same for every integer dtype standing alone (`0 + n`, both rank settings), plus "
+    "random frames of 1-3 columns of random dtypes with intercept on/off, ensure_full_rank on/off, na_action drop/raise/ignore. "
+    "row labels of the frames (random / history / entry / auto cases): the default 0..n-1 (40%), shuffled positions, offset "
+    "reversed integers, text labels, repeated labels. "
+    "history: frames of 2-4 columns (text / categorical / any dtype / object columns mixing text, integers, booleans, bytes), "
+    "2-4 calls on one materializer object (4 routes), each call 1-3 terms (plain, C(x), C(x, contr.treatment), "
+    "C(x, contr.treatment(base=v)), C(x, levels=[…]), C(x, <matrix | dict of weights>), any of them scaled by 2, 3, 10, 0.5, 2.5, "
+    "4.0), its own output / null policy / rank setting / intercept; a fault (base that is no level, unknown name, repeated level) "
+    "in about 40% of the calls, at least one per history, placed last in the formula 60% of the time; half of the histories "
+    "contain a sparse call directly followed by a non-sparse one. entry: one call through model_matrix / a new materializer on "
+    "a dict of lists, a dict of scalars, a record array, a frame; auto: model_matrix without a materializer name on a pandas "
+    "frame, a pyarrow table, a narwhals frame. edge: all-null / single-level / empty-matrix frames for every route x output. "
+    "levels / levels2: random value lists (text; Python scalars from pools of text, integers incl. 2**63 and 2**70, booleans, "
+    "short floats, bytes and mixtures) with/without declared levels, all outputs, the sparse encoder with/without drop_first. "
+    "apply: TreatmentContrasts.apply on 0-4 levels, 0-5 rows, three containers, base absent / a level / not a level. "
+    "non-trivial = a text or categorical column with at least two distinct values (levels: two distinct values); distinct by "
+    "canonical JSON"
 )
 
 MATS = ["pandas", "narwhals", "arrow"]
@@ -207,7 +294,7 @@ def random_case(rng):
         allow_null = na != "ignore" or family in ("text", "categorical") or label in ("float32", "float64")
         cols.append(gen_column(rng, name, label, family, nrows, allow_null=allow_null))
     return dict(kind="dtypes", cols=cols, intercept=rng.random() < 0.7, efr=rng.random() < 0.7, na=na,
-                mat=rng.choice(MATS), output=rng.choice(OUTPUTS))
+                mat=rng.choice(MATS), output=rng.choice(OUTPUTS), index=gen_index(rng, nrows))
 
 
 def levels_case(rng):
@@ -238,11 +325,33 @@ def cases(rng, tier):
         yield random_case(rng)
     for _ in range({"quick": 150, "thorough": 1500, "search": 0}[tier]):
         yield levels_case(rng)
+    for _ in range({"quick": 220, "thorough": 3000, "search": 120}[tier]):
+        yield history_case(rng)
+    for _ in range({"quick": 100, "thorough": 1500, "search": 40}[tier]):
+        yield entry_case(rng)
+    for _ in range({"quick": 70, "thorough": 1000, "search": 30}[tier]):
+        yield auto_case(rng)
+    for _ in range({"quick": 1, "thorough": 12, "search": 1}[tier]):
+        for mat in HIST_MATS:
+            for shape in ("allnull", "single", "empty"):
+                for output in OUTS_FOR[mat]:
+                    yield edge_case(rng, mat, shape, output)
+    for _ in range({"quick": 120, "thorough": 1500, "search": 0}[tier]):
+        yield apply_case(rng)
+    for _ in range({"quick": 200, "thorough": 2500, "search": 0}[tier]):
+        yield levels2_case(rng)
 
 
 def describe(c):
     if c["kind"] == "levels":
         return "levels"
+    if c["kind"] == "levels2":
+        return "levels2"
+    if c["kind"] == "apply":
+        return f"apply,{c['container']}"
+    if c["kind"] == "history":
+        faults = sum(1 for k in c["calls"] if k.get("fault"))
+        return f"history,{c['entry']},{c['mat']},calls={len(c['calls'])},faults={faults}"
     if len(c["cols"]) == 1 and c["cols"][0]["name"] == "n":
         return f"alone,{c['cols'][0]['label']},{c['mat']},{c['output']},efr={int(c['efr'])}"
     return f"{c['cols'][0]['label']},{c['mat']},{c['output']}" if len(c["cols"]) == 2 and c["cols"][1]["name"] == "a" else f"random,{c['mat']},{c['output']},na={c['na']}"
@@ -251,6 +360,12 @@ def describe(c):
 def nontrivial(c):
     if c["kind"] == "levels":
         return len({v for v in c["vals"] if v is not None}) >= 2
+    if c["kind"] == "levels2":
+        return len({canon_pv(v) for v in c["vals"] if v is not None}) >= 2
+    if c["kind"] == "apply":
+        return len(c["levels"]) >= 2
+    if c["kind"] == "history":
+        return any(col["family"] in ("text", "categorical", "mixed") for col in c["cols"]) and len(c["calls"]) >= 1
     return any(col["family"] in ("text", "categorical") and len({v for v in col["vals"] if v is not None}) >= 2 for col in c["cols"])
 
 
@@ -271,7 +386,7 @@ def make_series(col):
 
 
 def make_frame(c):
-    return pandas.DataFrame({col["name"]: make_series(col) for col in c["cols"]})
+    return set_index(pandas.DataFrame({col["name"]: make_series(col) for col in c["cols"]}), c)
 
 
 def formula_of(c):
@@ -328,7 +443,16 @@ def impl_dtypes(c):
                               materializer="pandas" if c["mat"] == "pandas" else "narwhals")
     except Exception as e:
         return {"error": type(e).__name__, "msg": str(e)[:200]}
-    return matrix_observable(mm, c["output"])
+    return observe(mm, c["output"])
+
+
+def as_history(c):
+    """a case of the `dtypes` stream in the form of the `history` stream (one call, plain terms): the same frame is also run
+    through the extended model (`Model/Encode2.lean`), so that both models are compared with the implementation -- and with
+    each other -- on every dtype x route x output"""
+    terms = [dict(expr=col["name"], name=col["name"], isC=False, base=None, levels=None, scale=None) for col in c["cols"]]
+    call = dict(intercept=c["intercept"], efr=c["efr"], na=c["na"], output=c["output"], terms=terms, fault=None)
+    return dict(kind="history", entry="function", container="frame", mat=c["mat"], cols=c["cols"], calls=[call])
 
 
 def impl_levels(c):
@@ -353,6 +477,12 @@ def impl_levels(c):
 
 
 def impl(c):
+    if c["kind"] == "history":
+        return impl_history(c)
+    if c["kind"] == "levels2":
+        return impl_levels2(c)
+    if c["kind"] == "apply":
+        return impl_apply(c)
     return impl_levels(c) if c["kind"] == "levels" else impl_dtypes(c)
 
 
@@ -369,6 +499,12 @@ def col_request(col):
 
 
 def request(c, o):
+    if c["kind"] == "history":
+        return request_history(c)
+    if c["kind"] == "levels2":
+        return dict(op="levels2", vals=c["vals"], declared=c["declared"], output=c["output"], drop_first=c["drop_first"])
+    if c["kind"] == "apply":
+        return dict(op="apply", levels=c["levels"], codes=c["codes"], base=c["base"], reduced=c["reduced"])
     if c["kind"] == "levels":
         declared = c["declared"]
         if declared is None and c["dtype"] == "category":
@@ -376,7 +512,7 @@ def request(c, o):
         return dict(op="levels", vals=c["vals"], declared=declared)
     nrows = len(c["cols"][0]["vals"])
     return dict(op="build", mat=c["mat"], intercept=c["intercept"], efr=c["efr"], na=c["na"], nrows=nrows,
-                cols=[col_request(col) for col in c["cols"]])
+                cols=[col_request(col) for col in c["cols"]], hist=request_history(as_history(c)))
 
 
 def float_image(fr):
@@ -410,13 +546,26 @@ def agree(c, o, m):
         return "driver: " + m["driver_error"][:300]
     if "harness_exception" in o or "skip" in o:
         return None
+    if c["kind"] == "history":
+        return agree_history(c, o, m)
+    if c["kind"] == "levels2":
+        return agree_levels2(c, o, m)
+    if c["kind"] == "apply":
+        if "error" in o or "error" in m:
+            return None if o.get("error") == m.get("error") else f"apply: impl {o.get('error', 'ok')} ({o.get('msg', '')}) vs model {m.get('error', 'ok')}"
+        if o["names"] != [x["name"] for x in m["columns"]]:
+            return f"apply: column names: impl {o['names']} vs model {[x['name'] for x in m['columns']]}"
+        for oc, mc in zip(o["cols"], m["columns"]):
+            if len(oc) != len(mc["values"]) or not all(_same_cell(a, b) for a, b in zip(oc, mc["values"])):
+                return f"apply: column {mc['name']}: impl {oc} vs model {mc['values']}"
+        return None
     if c["kind"] == "levels":
         if "error" in o:
             return f"encode_contrasts raised {o['error']}: {o.get('msg')}"
         return None if o["levels"] == m.get("levels") else f"levels differ: impl {o['levels']} vs model {m.get('levels')}"
     if "error" in o or "error" in m:
         if "error" in o and "error" in m:
-            return None
+            return agree_new_model(c, o, m)
         return f"impl {o.get('error', 'ok')} ({o.get('msg', '')}) vs model {m.get('error', 'ok')}"
     mn = [x["name"] for x in m["columns"]]
     if mn != o["names"]:
@@ -425,6 +574,22 @@ def agree(c, o, m):
         af = allow_common_dtype(c, len(mn))
         if len(mc["values"]) != len(oc) or not all(_same_cell(a, b, af) for a, b in zip(oc, mc["values"])):
             return f"column {mc['name']}: impl {oc} vs model {mc['values']}"
+    return agree_new_model(c, o, m)
+
+
+def agree_new_model(c, o, m):
+    """the extended model on the same case: against the implementation (cells, names, dtypes) and against the first model"""
+    new = m.get("new")
+    if not isinstance(new, dict) or "results" not in new:
+        return f"the extended model did not answer: {str(new)[:200]}"
+    why = agree_history(as_history(c), {"results": [o]}, new)
+    if why:
+        return "extended model: " + why
+    r = new["results"][0]
+    if ("error" in r) != ("error" in m):
+        return f"the two models differ: {m.get('error', 'ok')} vs {r.get('error', 'ok')}"
+    if "error" not in r and [(x["name"], x["values"]) for x in r["columns"]] != [(x["name"], x["values"]) for x in m["columns"]]:
+        return f"the two models differ: {m['columns']} vs {r['columns']}"
     return None
 
 
@@ -444,6 +609,12 @@ def oracle(c, o):
         return "harness could not run the implementation: " + o["harness_exception"]
     if "skip" in o:
         return None
+    if c["kind"] == "history":
+        return oracle_history(c, o)
+    if c["kind"] == "levels2":
+        return oracle_levels2(c, o)
+    if c["kind"] == "apply":
+        return oracle_apply(c, o)
     if c["kind"] == "levels":
         if "error" in o:
             return f"encode_contrasts raised {o['error']}: {o.get('msg')}"
@@ -465,8 +636,11 @@ def oracle(c, o):
         for x in col:
             if isinstance(x, dict) and "s" in x:
                 return f"cell {x['s']!r} of column {name!r} is not a number"
-    # (an object-dtype container whose cells are all Python numbers satisfies the property text; `numeric_dtype` is
-    # recorded as an observable only)
+    # "the matrix is always numeric": the container itself must have an integer or floating-point dtype (every column
+    # of a frame, the array / sparse matrix as a whole) -- an object array of Python numbers is rejected by numpy.linalg
+    if not o.get("numeric_dtype", True):
+        return ("the matrix is not numeric: a column of the frame / the array has a dtype that is neither integer nor "
+                "floating point (object or bool)")
     if o["shown"] != o["names"]:
         return f"the matrix shows columns {o['shown']} but the spec names {o['names']}"
     # expected column structure
@@ -538,21 +712,969 @@ def oracle(c, o):
     return None
 
 
-def classify(c, o, why):
+
+# ----------------------------------------------------------------------------- extended streams
+# Python scalars as values (object columns may mix text, integers, booleans, bytes), explicit `C(...)` terms with a
+# treatment base / `levels=`, terms scaled by a numeric literal, several calls on ONE materializer object (some of
+# which fail while a later term is encoded), dict / record-array input and the `narwhals` output type.
+
+
+def pv(x):
+    """Python scalar -> JSON form understood by the engine"""
+    if x is None:
+        return None
+    if isinstance(x, (bool, numpy.bool_)):
+        return {"b": bool(x)}
+    if isinstance(x, (int, numpy.integer)):
+        return {"i": str(int(x))}
+    if isinstance(x, (float, numpy.floating)):
+        return {"f": fstr(Fraction(float(x)))}
+    if isinstance(x, bytes):
+        return {"y": x.decode("ascii")}
+    return {"s": str(x)}
+
+
+def unpv(j):
+    if j is None:
+        return None
+    if "s" in j:
+        return j["s"]
+    if "i" in j:
+        return int(j["i"])
+    if "b" in j:
+        return bool(j["b"])
+    if "f" in j:
+        return float(Fraction(j["f"]))
+    return j["y"].encode("ascii")
+
+
+def canon_pv(j):
+    return "null" if j is None else "%s:%s" % next(iter(j.items()))
+
+
+def pylit(j):
+    """the value as Python source text, in the form the formula tokenizer leaves it"""
+    return repr(unpv(j))
+
+
+def col_py(col):
+    """the values of a generated column as Python scalars (JSON form)"""
+    if "py" in col:
+        return col["py"]
+    fam = col["family"]
+    if fam == "numeric":
+        is_f = col["label"].lower().startswith(("float", "double"))
+        return [None if v is None else ({"f": v} if is_f else {"i": v}) for v in col["vals"]]
+    return [pv(v) for v in col["vals"]]
+
+
+def col_declared(col):
+    if col["family"] != "categorical":
+        return None
+    d = col.get("declared")
+    if d is None:
+        d = sorted({v for v in col["vals"] if v is not None})
+    return [pv(x) for x in d]
+
+
+MIXED_POOLS = [
+    ["b", 2, "a", 1],
+    [True, 1, 0, False, 2],
+    [1, True, 0, "x"],
+    [b"a", 1, b"b"],
+    [b"b", b"a", "a"],
+    [b"a", 1, "x"],
+    [3, -1, 10, 2**70],
+    [True, False],
+    ["10", 9, "nine", 11],
+    [0, "__x", "T.b", -5],
+]
+
+
+def gen_mixed(rng, name, nrows):
+    pool = rng.choice(MIXED_POOLS)
+    null_p = rng.choice([0.0, 0.0, 0.2])
+    vals = [None if rng.random() < null_p else rng.choice(pool) for _ in range(nrows)]
+    return dict(name=name, label="object", family="mixed", py=[pv(v) for v in vals])
+
+
+HIST_MATS = ["pandas", "narwhals", "arrow", "nwframe"]
+OUTS_FOR = {"pandas": ["pandas", "numpy", "sparse"], "narwhals": ["pandas", "numpy", "sparse", "narwhals"],
+            "arrow": ["pandas", "numpy", "sparse", "narwhals"], "nwframe": ["pandas", "numpy", "sparse", "narwhals"]}
+# labels of which a column can be handed over as a dict of lists / scalars or a record array (pandas re-infers the dtype)
+PLAIN_LABELS = {"str": "text", "int64": "numeric", "float64": "numeric", "bool": "bool"}
+
+
+def gen_frame_cols(rng, mat, nrows, labels=None):
+    bs = B()
+    ncol = rng.randint(2, 4)
+    names = ["t", "b", "a", "n"][:ncol]
+    cols = []
+    for i, name in enumerate(names):
+        r = rng.random()
+        if labels is not None:
+            label = rng.choice(sorted(labels))
+            family = labels[label]
+        elif i == 0 or r < 0.35:
+            label = rng.choice([l for l in bs if bs[l][0] in ("text", "categorical")])
+            family = bs[label][0]
+        elif r < 0.5 and mat != "arrow":
+            cols.append(gen_mixed(rng, name, nrows))
+            continue
+        else:
+            label = rng.choice(sorted(bs))
+            family = bs[label][0]
+        allow_null = family in ("text", "categorical") or label in ("float32", "float64")
+        if labels is not None and label != "float64" and family != "text":
+            allow_null = False
+        cols.append(gen_column(rng, name, label, family, nrows, allow_null=allow_null))
+    return cols
+
+
+def present_values(col):
+    out = []
+    for v in col_py(col):
+        if v is not None and canon_pv(v) not in [canon_pv(x) for x in out]:
+            out.append(v)
+    return out
+
+
+def small_numbers(col):
+    """may the column be multiplied by a literal up to 10 inside its own dtype (a narrow integer dtype wraps around: C02-F1)"""
+    return all(v is None or "b" in v or abs(Fraction(next(iter(v.values())))) <= 12 for v in col_py(col))
+
+
+def gen_term(rng, col, fault=None):
+    name = col["name"]
+    present = present_values(col)
+    declared = col_declared(col)
+    is_num = col["family"] in ("numeric", "bool")
+    shape = rng.choice(["plain", "plain", "plain", "C", "Cbase", "Clevels", "Cboth", "Cclass", "Ccustom"] if not is_num else ["plain", "plain", "plain", "C", "Cbase", "Cclass", "Ccustom"])
+    if col["family"] == "mixed" and {"b", "i"} <= {next(iter(v)) for v in present} and shape in ("Cbase", "Clevels", "Cboth", "Ccustom"):
+        # nominated levels / a base next to values of another Python type that compare equal (True and 1): pandas matches
+        # values to nominated categories by its own typed rules, not by `==`; left out
+        shape = "C"
+    if col["label"] == "float16":
+        shape = "plain"  # pandas has no float16 index: `C(<float16 column>)` cannot list its levels (NotImplementedError in pandas)
+        fault = "name" if fault == "name" else None
+    if fault in ("base", "duplevels") and shape in ("plain", "C"):
+        shape = "Cbase" if fault == "base" else "Clevels"
+    if fault == "name":
+        name = "zz"
+        shape = rng.choice(["plain", "C", "Cclass"])
+    base = None
+    levels = None
+    pool = declared if declared else present
+    if shape in ("Clevels", "Cboth"):
+        k = rng.randint(0, len(pool))
+        levels = rng.sample(pool, k)
+        if rng.random() < 0.3:
+            levels.append({"s": "absent"} if not is_num else {"i": "77"})
+        rng.shuffle(levels)
+        if fault == "duplevels":
+            levels = (levels or [{"s": "q"}])
+            levels = levels + [levels[0]]
+    if shape in ("Cbase", "Cboth"):
+        cands = levels if levels else pool
+        if fault == "base" or not cands:
+            base = {"s": "nope"} if rng.random() < 0.7 else {"i": "12345"}
+        else:
+            base = rng.choice(cands)
+    is_c = shape != "plain"
+    args = [name]
+    custom = None
+    if shape == "Ccustom":
+        custom, text = gen_custom(rng, len(pool) if rng.random() < 0.85 else rng.randint(0, 4))
+        args.append(text)
+        if rng.random() < 0.3 and pool:
+            levels = rng.sample(pool, len(pool))
+    if shape == "Cclass":
+        args.append("contr.treatment")  # the coding class itself, not an instance: same as the default
+    if base is not None:
+        args.append(f"contr.treatment(base={pylit(base)})")
+    if levels is not None:
+        args.append("levels=[" + ", ".join(pylit(l) for l in levels) + "]")
+    expr = f"C({', '.join(args)})" if is_c else name
+    scale = None
+    if rng.random() < 0.2 and (not is_num or small_numbers(col)) and col["family"] != "mixed":
+        scale = rng.choice([{"i": "2"}, {"i": "3"}, {"i": "10"}, {"f": "1/2"}, {"f": "5/2"}, {"f": "4"}])
+    return dict(expr=expr, name=name, isC=is_c, base=base, levels=levels, scale=scale, custom=custom, classArg=shape == "Cclass")
+
+
+WEIGHTS = ["0", "1", "-1", "2", "1/2", "-3/2", "3"]
+
+
+def weight_text(w):
+    fr = Fraction(w)
+    return str(fr.numerator) if fr.denominator == 1 else repr(float(fr))
+
+
+def gen_custom(rng, nlevels):
+    """contrasts written by the user for `nlevels` levels: a matrix (one row per level) or a dictionary name -> weights"""
+    ncon = rng.randint(1, 3)
+    if rng.random() < 0.5 and nlevels > 0:
+        rows = [[rng.choice(WEIGHTS) for _ in range(ncon)] for _ in range(nlevels)]
+        if rows and rng.random() < 0.06:
+            rows[-1] = rows[-1][:-1]  # ragged
+        text = "[" + ", ".join("[" + ", ".join(weight_text(w) for w in r) + "]" for r in rows) + "]"
+        return {"matrix": rows}, text
+    names = rng.sample(["lo", "hi", "mid", "c1", "T.x"], ncon)
+    entries = [[nm, [rng.choice(WEIGHTS) for _ in range(nlevels)]] for nm in names]
+    text = "{" + ", ".join(f"{nm!r}: [" + ", ".join(weight_text(w) for w in ws) + "]" for nm, ws in entries) + "}"
+    return {"dict": entries}, text
+
+
+def scale_text(sc):
+    if sc is None:
+        return ""
+    if "i" in sc:
+        return sc["i"] + ":"
+    return repr(float(Fraction(sc["f"]))) + ":"
+
+
+def gen_call(rng, cols, mat, fault=None):
+    k = rng.randint(1, min(3, len(cols)))
+    chosen = rng.sample(cols, k)
+    terms = [gen_term(rng, col) for col in chosen]
+    na = rng.choice(["drop", "drop", "ignore", "raise"])
+    if fault is not None:
+        pos = len(terms) - 1 if rng.random() < 0.6 else rng.randrange(len(terms))
+        terms[pos] = gen_term(rng, chosen[pos], fault=fault)
+        if fault == "name" and na == "raise":
+            na = "drop"
+    return dict(intercept=rng.random() < 0.7, efr=rng.random() < 0.75, na=na, output=rng.choice(OUTS_FOR[mat]), terms=terms,
+                fault=fault)
+
+
+def gen_index(rng, nrows):
+    """row labels of the frame: the default 0..n-1, or labels that are not positions (shuffled, offset, text, repeated)"""
+    r = rng.random()
+    if r < 0.4:
+        return None
+    if r < 0.6:
+        lab = list(range(nrows))
+        rng.shuffle(lab)
+        return lab
+    if r < 0.75:
+        return [10 * i + 5 for i in range(nrows)][::-1]
+    if r < 0.9:
+        return [f"r{(i * 7) % 5}{i}" for i in range(nrows)]
+    return [rng.choice([0, 1, 2]) for _ in range(nrows)]
+
+
+def set_index(df, c):
+    if c.get("index") is not None:
+        df.index = pandas.Index(c["index"])
+    return df
+
+
+def history_case(rng):
+    mat = rng.choice(HIST_MATS)
+    nrows = rng.randint(2, 6)
+    cols = gen_frame_cols(rng, mat, nrows)
+    ncalls = rng.randint(2, 4)
+    calls = []
+    for _ in range(ncalls):
+        fault = rng.choice([None, None, None, "base", "base", "name", "duplevels"])
+        calls.append(gen_call(rng, cols, mat, fault))
+    if all(k["fault"] is None for k in calls):
+        calls[rng.randrange(ncalls - 1)] = gen_call(rng, cols, mat, "base")
+    if rng.random() < 0.5:
+        # the shape of the reported miss: a sparse call that fails late, then a valid call of another output type
+        i = rng.randrange(ncalls - 1)
+        calls[i]["output"] = "sparse"
+        if calls[i + 1]["output"] == "sparse":
+            calls[i + 1]["output"] = rng.choice(["pandas", "numpy"])
+    return dict(kind="history", entry="instance", container="frame", mat=mat, cols=cols, calls=calls, index=gen_index(rng, nrows))
+
+
+def auto_case(rng):
+    """`model_matrix(formula, data, output=...)` without naming a materializer: a pandas frame goes to the pandas
+    materializer, a pyarrow table / narwhals frame to the narwhals materializer (`SUPPORTS_INPUT`)"""
+    data_kind = rng.choice(["pandas", "arrow", "nwframe"])
+    # (a pandas frame with output='narwhals' is refused: `ModelSpec.get_materializer` picks the class from the data alone
+    # -- `for_data(data)` without the output -- and the pandas materializer has no such output; that is C05's subject)
+    output = rng.choice(["pandas", "numpy", "sparse"] + (["narwhals"] if data_kind != "pandas" else []))
+    mat = data_kind
+    nrows = rng.randint(1, 5)
+    cols = gen_frame_cols(rng, "arrow" if data_kind == "arrow" else mat, nrows)
+    call = gen_call(rng, cols, mat, rng.choice([None, None, None, "base"]))
+    call["output"] = output
+    return dict(kind="history", entry="auto", container="frame", mat=mat, data_kind=data_kind, cols=cols, calls=[call],
+                index=gen_index(rng, nrows))
+
+
+def edge_case(rng, mat=None, shape=None, output=None):
+    """corners that random frames rarely hit: a column without any non-null value (no level at all), a single level under
+    rank reduction, a formula whose every term emits nothing (a matrix without columns) -- for every route and output"""
+    mat = mat or rng.choice(HIST_MATS)
+    nrows = rng.randint(1, 4)
+    bs = B()
+    label = rng.choice([l for l in bs if bs[l][0] in ("text", "categorical")])
+    family = bs[label][0]
+    shape = shape or rng.choice(["allnull", "single", "empty"])
+    t = gen_column(rng, "t", label, family, nrows)
+    if shape == "allnull":
+        t["vals"] = [None] * nrows
+    elif shape == "single":
+        v = (t.get("declared") or [x for x in t["vals"] if x is not None] or ["a"])[0]
+        t["vals"] = [v] * nrows
+        if family == "categorical" and rng.random() < 0.5:
+            t["declared"] = [v]
+    a = gen_column(rng, "a", "float64", "numeric", nrows, allow_null=False)
+    cols = [t, a]
+    if shape == "empty":
+        terms = [dict(expr="C(t, levels=[])", name="t", isC=True, base=None, levels=[], scale=None)]
+        intercept = False
+    else:
+        terms = [gen_term(rng, t)] + ([gen_term(rng, a)] if rng.random() < 0.5 else [])
+        intercept = rng.random() < 0.6
+    call = dict(intercept=intercept, efr=rng.random() < 0.8, na=rng.choice(["ignore", "ignore", "drop"]),
+                output=output or rng.choice(OUTS_FOR[mat]), terms=terms, fault=None)
+    return dict(kind="history", entry="instance", container="frame", mat=mat, cols=cols, calls=[call])
+
+
+def entry_case(rng):
+    """one call through `model_matrix(...)` / a new materializer on a dict of lists, a dict of scalars, a record array or a frame"""
+    container = rng.choice(["dict", "dict", "dict_scalar", "recarray", "frame"])
+    nrows = 1 if container == "dict_scalar" else rng.randint(1, 5)
+    mat = "pandas" if container != "frame" else rng.choice(HIST_MATS)
+    cols = gen_frame_cols(rng, mat, nrows, labels=PLAIN_LABELS if container != "frame" else None)
+    if container in ("recarray", "dict_scalar"):
+        for col in cols:  # a record array has no nulls
+            if any(v is None for v in col["vals"]):
+                col["vals"] = [("x" if col["family"] == "text" else "0") if v is None else v for v in col["vals"]]
+    call = gen_call(rng, cols, mat, rng.choice([None, None, None, "base", "name"]))
+    return dict(kind="history", entry=rng.choice(["function", "instance"]), container=container, mat=mat, cols=cols, calls=[call],
+                index=gen_index(rng, nrows) if container == "frame" else None)
+
+
+# ---------------------------------------------------------------- implementation side
+
+
+def series_of(col):
+    if col["family"] == "mixed":
+        return pandas.Series([unpv(j) for j in col["py"]], dtype=object)
+    return make_series(col)
+
+
+def build_data(c):
+    cols = c["cols"]
+    container = c["container"]
+    if container == "frame":
+        df = set_index(pandas.DataFrame({col["name"]: series_of(col) for col in cols}), c)
+        kind = c.get("data_kind", c["mat"])
+        if kind == "pandas":
+            return df
+        if kind == "arrow":
+            import pyarrow
+
+            return pyarrow.Table.from_pandas(df, preserve_index=False)
+        if kind == "nwframe":
+            import narwhals.stable.v1 as nw
+
+            return nw.from_native(df, eager_only=True)
+        return df
+    py = {col["name"]: [unpv(j) for j in col_py(col)] for col in cols}
+    for col in cols:
+        if col["label"] == "float64":
+            py[col["name"]] = [float("nan") if v is None else v for v in py[col["name"]]]
+    if container == "dict":
+        return py
+    if container == "dict_scalar":
+        return {k: v[0] for k, v in py.items()}
+    return numpy.rec.fromarrays([numpy.array(py[col["name"]]) for col in cols], names=",".join(col["name"] for col in cols))
+
+
+def call_formula(k):
+    f = " + ".join(scale_text(t["scale"]) + t["expr"] for t in k["terms"])
+    return f if k["intercept"] else f + " - 1"
+
+
+def native_frame(mm):
+    w = mm.__wrapped__ if hasattr(mm, "__wrapped__") else mm
+    if isinstance(w, pandas.DataFrame):
+        return w
+    return w.to_pandas()
+
+
+def observe(mm, output):
+    if output == "narwhals":
+        df = native_frame(mm)
+        names = [str(n) for n in mm.model_spec.column_names]
+        cols = [[cell(x) for x in df.iloc[:, j].tolist()] for j in range(df.shape[1])]
+        return dict(names=names, shown=[str(x) for x in df.columns], cols=cols, dtypes=[str(dt) for dt in df.dtypes],
+                    numeric_dtype=all(pandas.api.types.is_numeric_dtype(dt) and not pandas.api.types.is_bool_dtype(dt) for dt in df.dtypes))
+    o = matrix_observable(mm, output)
+    if output == "pandas":
+        df = mm.__wrapped__ if hasattr(mm, "__wrapped__") else mm
+        o["dtypes"] = [str(dt) for dt in df.dtypes]
+    else:
+        o["dtypes"] = [str(mm.dtype)]
+    return o
+
+
+def materializer_class(c):
+    from formulaic.materializers import NarwhalsMaterializer, PandasMaterializer
+
+    return PandasMaterializer if c["mat"] == "pandas" else NarwhalsMaterializer
+
+
+def run_call(get, k):
+    try:
+        with warnings.catch_warnings():
+            warnings.simplefilter("ignore")
+            mm = get(call_formula(k), output=k["output"], na_action=k["na"], ensure_full_rank=k["efr"])
+    except Exception as e:
+        return {"error": type(e).__name__, "msg": str(e)[:160]}
+    return observe(mm, k["output"])
+
+
+def impl_history(c):
+    from formulaic import model_matrix
+
+    try:
+        with warnings.catch_warnings():
+            warnings.simplefilter("ignore")
+            data = build_data(c)
+    except Exception as e:
+        return {"skip": "input could not be constructed: " + type(e).__name__ + ": " + str(e)[:120]}
+    M = materializer_class(c)
+    if c["entry"] == "auto":
+        # no `materializer=`: FormulaMaterializer.for_data picks the class from the type of the data and the output
+        results = [run_call(lambda f, **kw: model_matrix(f, data, **kw), k) for k in c["calls"]]
+    elif c["entry"] == "function":
+        name = "pandas" if c["mat"] == "pandas" else "narwhals"
+        results = [run_call(lambda f, **kw: model_matrix(f, data, materializer=name, **kw), k) for k in c["calls"]]
+    else:
+        inst = M(data)
+        results = [run_call(inst.get_model_matrix, k) for k in c["calls"]]
+    fresh = [run_call(M(data).get_model_matrix, k) for k in c["calls"]]
+    return dict(results=results, fresh=fresh)
+
+
+def request_history(c):
+    nrows = len(col_py(c["cols"][0]))
+    cols = [dict(name=col["name"], dtype=col["label"], declared=col_declared(col), vals=col_py(col)) for col in c["cols"]]
+    calls = [dict(intercept=k["intercept"], efr=k["efr"], na=k["na"], output=k["output"],
+                  # (the factor's text `expr` is NOT sent: the model writes it from the structure of the factor)
+                  terms=[dict(name=t["name"], isC=t["isC"], base=t["base"], levels=t["levels"], scale=t["scale"],
+                              custom=t.get("custom"), classArg=bool(t.get("classArg")))
+                         for t in k["terms"]]) for k in c["calls"]]
+    mat = {"nwframe": "narwhals"}.get(c["mat"], c["mat"])
+    return dict(op="history", mat=mat, nrows=nrows, cols=cols, calls=calls)
+
+
+def agree_history(c, o, m):
+    if "results" not in m:
+        return f"model answered {str(m)[:200]}"
+    if len(m["results"]) != len(o["results"]):
+        return "model and implementation ran a different number of calls"
+    for i, (k, oc, mc) in enumerate(zip(c["calls"], o["results"], m["results"])):
+        if "error" in oc or "error" in mc:
+            if oc.get("error") == mc.get("error"):
+                continue
+            return f"call {i} ({call_formula(k)}, {k['output']}, na={k['na']}): impl {oc.get('error', 'ok')} ({oc.get('msg', '')}) vs model {mc.get('error', 'ok')}"
+        mn = [x["name"] for x in mc["columns"]]
+        if mn != oc["names"]:
+            return f"call {i} ({call_formula(k)}): column names differ: impl {oc['names']} vs model {mn}"
+        af = k["output"] in ("numpy", "sparse") and len(mn) > 1
+        for mcol, ocol in zip(mc["columns"], oc["cols"]):
+            if len(mcol["values"]) != len(ocol) or not all(_same_cell(a, b, af) for a, b in zip(ocol, mcol["values"])):
+                return f"call {i} ({call_formula(k)}, {k['output']}): column {mcol['name']}: impl {ocol} vs model {mcol['values']}"
+        # dtype(s) of the container: from the generated tables (a matrix without rows is left out: numpy gives an
+        # empty literal list the dtype float64 whatever it was meant to hold)
+        nrows_out = len(oc["cols"][0]) if oc["cols"] else None
+        if nrows_out != 0 and dtype_comparable(c, k):
+            if oc.get("dtypes") != mc.get("dtypes"):
+                return f"call {i} ({call_formula(k)}, {c['mat']}, {k['output']}, na={k['na']}): dtypes: impl {oc.get('dtypes')} vs model {mc.get('dtypes')}"
     return None
 
 
+def dtype_comparable(c, k):
+    """Is the dtype of this call's matrix a function of the dtype labels alone?  Not when a null survives into a numeric
+    column (`na_action='ignore'`/`'raise'` never drop; a float NaN keeps the dtype, anything else does not)."""
+    by = {col["name"]: col for col in c["cols"]}
+    if c["container"] != "frame":
+        return False  # pandas re-infers the dtypes of a dict / record array
+    for t in k["terms"]:
+        col = by.get(t["name"])
+        if col is None or t.get("custom"):
+            return False  # (the dtype of `dummies @ contrasts` is the user's: integer or float weights)
+        if col["family"] == "numeric" and k["na"] != "drop" and any(v is None for v in col_py(col)) and not t["isC"]:
+            if col["label"] not in ("float16", "float32", "float64"):
+                return False
+    return True
+
+
+# ---------------------------------------------------------------- oracle (implementation only)
+
+
+def _py_eq(a, b):
+    """Python `==` on the JSON forms"""
+    return unpv(a) == unpv(b) and (("s" in a) == ("s" in b)) and (("y" in a) == ("y" in b))
+
+
+def call_rows(c, k):
+    """(retained row positions, does a used column hold a null) for call k -- None when a name is unknown"""
+    by = {col["name"]: col for col in c["cols"]}
+    n = len(col_py(c["cols"][0]))
+    used = []
+    for t in k["terms"]:
+        if t["name"] not in by:
+            return None, None
+        used.append(col_py(by[t["name"]]))
+    nulls = [any(u[i] is None for u in used) for i in range(n)]
+    keep = [i for i in range(n) if not nulls[i]] if k["na"] == "drop" else list(range(n))
+    return keep, any(nulls)
+
+
+def expected_valid(c, k):
+    """must this call succeed?  (None: the property text does not say)"""
+    keep, has_null = call_rows(c, k)
+    if keep is None:
+        return None
+    if k["na"] == "raise" and has_null:
+        return False
+    by = {col["name"]: col for col in c["cols"]}
+    for t in k["terms"]:
+        if not t["isC"]:
+            continue
+        if t["levels"] is not None:
+            lv = t["levels"]
+            if any(_py_eq(a, b) for i, a in enumerate(lv) for b in lv[i + 1:]):
+                return None
+        elif by[t["name"]]["family"] == "categorical":
+            lv = col_declared(by[t["name"]])
+        else:
+            lv = [v for i, v in enumerate(col_py(by[t["name"]])) if i in keep and v is not None]
+        if t["base"] is not None and not any(_py_eq(t["base"], l) for l in lv):
+            return None
+        if t.get("custom"):
+            distinct = []
+            for v in lv:
+                if not any(_py_eq(v, w) for w in distinct):
+                    distinct.append(v)
+            shape = custom_shape(t["custom"])
+            if shape is None or (distinct and shape[0] != len(distinct)):
+                return None  # weights that are not rectangular / written for another number of levels
+    return True
+
+
+def custom_shape(cu):
+    """(number of levels, number of contrasts) of user-given contrasts, None when the weights are ragged"""
+    if "matrix" in cu:
+        rows = cu["matrix"]
+        if not rows:
+            return None
+        return (len(rows), len(rows[0])) if all(len(r) == len(rows[0]) for r in rows) else None
+    ents = cu["dict"]
+    if not ents or any(len(w) != len(ents[0][1]) for _, w in ents):
+        return None
+    return (len(ents[0][1]), len(ents))
+
+
+def custom_weight(cu, j, c):
+    return Fraction(cu["matrix"][j][c]) if "matrix" in cu else Fraction(cu["dict"][c][1][j])
+
+
+def oracle_call(c, k, r):
+    """the structure the property text requires of one successful call"""
+    by = {col["name"]: col for col in c["cols"]}
+    keep, _ = call_rows(c, k)
+    names, cols = r["names"], r["cols"]
+    for name, col in zip(names, cols):
+        for x in col:
+            if isinstance(x, dict) and "s" in x:
+                return f"cell {x['s']!r} of column {name!r} is not a number"
+    if r["shown"] != names:
+        return f"the matrix shows columns {r['shown']} but the spec names {names}"
+
+    def colvals(j):
+        return [("1" if x["b"] else "0") if isinstance(x, dict) else x for x in cols[j]]
+
+    pos = 0
+    if k["intercept"]:
+        if not names or names[0] != "Intercept":
+            return f"first column is {names[:1]}, expected Intercept"
+        if any(x == "nan" or Fraction(x) != 1 for x in colvals(0)) or len(cols[0]) != len(keep):
+            return f"Intercept column is {cols[0]} for {len(keep)} retained rows"
+        pos = 1
+    af = k["output"] in ("numpy", "sparse") and len(names) > 1
+    for t in k["terms"]:
+        col = by[t["name"]]
+        vals = [col_py(col)[i] for i in keep]
+        sc = Fraction(1) if t["scale"] is None else Fraction(next(iter(t["scale"].values())))
+        categorical = t["isC"] or col["family"] in ("text", "categorical", "mixed")
+        if categorical:
+            emitted = []
+            while pos < len(names) and names[pos].startswith(t["expr"] + "["):
+                emitted.append(pos)
+                pos += 1
+            got = [names[j][len(t["expr"]) + 1:-1] for j in emitted]
+            # level order required by the property text: sorted for text, declared for a categorical dtype / levels=
+            if t["levels"] is not None:
+                want = list(t["levels"])
+            elif col["family"] == "categorical":
+                want = col_declared(col)
+            elif col["family"] == "text":
+                want = [{"s": s} for s in sorted({v["s"] for v in vals if v is not None})]
+            else:
+                want = None  # object column of mixed scalars, C(numeric column): the property text gives no order
+            if t.get("custom"):
+                # user-given contrasts: every emitted cell is the weight the user wrote for the row's level (0 for a null)
+                shape = custom_shape(t["custom"])
+                if got and want is not None and shape is not None:
+                    if len(got) != shape[1]:
+                        return f"term {t['expr']} emits {len(got)} columns for {shape[1]} contrasts"
+                    for cidx, j in enumerate(emitted):
+                        exp = []
+                        for v in vals:
+                            hit = None if v is None else next((i for i, l in enumerate(want) if _py_eq(v, l)), None)
+                            exp.append(Fraction(0) if hit is None else sc * custom_weight(t["custom"], hit, cidx))
+                        gotv = [None if x == "nan" else Fraction(x) for x in colvals(j)]
+                        if len(gotv) != len(exp) or not all(g is not None and (g == w or g == float_image(w)) for g, w in zip(gotv, exp)):
+                            return f"column {names[j]} is {cols[j]}; the weights of the rows' levels are {[fstr(x) for x in exp]}"
+                continue
+            if want is not None:
+                labels = [str(unpv(l)) for l in want]
+                if t["base"] is None:
+                    rest = want[1:]
+                else:
+                    rest = [l for l in want if not _py_eq(l, t["base"])]
+                if got == labels:
+                    levels_of_cols = want
+                elif got == ["T." + str(unpv(l)) for l in rest] and (len(rest) < len(want) or not want):
+                    levels_of_cols = rest
+                else:
+                    kind = "sorted" if (col["family"] == "text" and t["levels"] is None) else "declared"
+                    return (f"term {t['expr']} ({col['label']}) is encoded as {got}; with levels in {kind} order {labels} the indicator "
+                            f"columns must be one per level, or (reduced) all but the base level with a T. prefix, in that order")
+            else:
+                present = []
+                for v in vals:
+                    if v is not None and not any(_py_eq(v, w) for w in present):
+                        present.append(v)
+                levels_of_cols = []
+                for g in got:
+                    cand = [w for w in present if str(unpv(w)) == g or "T." + str(unpv(w)) == g]
+                    if not cand:
+                        return f"column {t['expr']}[{g}] is not named after a value of the column (values: {[unpv(w) for w in present]})"
+                    levels_of_cols.append(cand[0])
+                if len({canon_pv(l) for l in levels_of_cols}) != len(got):
+                    return f"term {t['expr']} has repeated level columns {got}"
+            for j, lv in zip(emitted, levels_of_cols):
+                ind = [sc if (v is not None and _py_eq(v, lv)) else Fraction(0) for v in vals]
+                gotv = [None if x == "nan" else Fraction(x) for x in colvals(j)]
+                if gotv != ind:
+                    return (f"column {names[j]} is {cols[j]}; {scale_text(t['scale'])}indicator of level {unpv(lv)!r} on the retained "
+                            f"rows is {[fstr(x) for x in ind]}")
+        else:
+            if pos >= len(names) or names[pos] != t["expr"]:
+                return f"{col['family']} column {t['name']} ({col['label']}) must pass through under its own name; columns are {names}"
+            want = [None if v is None else sc * (Fraction(int(v["b"])) if "b" in v else Fraction(next(iter(v.values())))) for v in vals]
+            gotv = [None if x == "nan" else Fraction(x) for x in colvals(pos)]
+            exact = t["scale"] is None or "i" in t["scale"]
+
+            def unchanged(g, w):
+                if g is None or w is None:
+                    return g is None and w is None
+                return g == w or ((af or not exact) and g == float_image(w))
+
+            if len(gotv) != len(want) or not all(unchanged(g, w) for g, w in zip(gotv, want)):
+                return (f"numeric column {t['name']} ({col['label']}) comes out as {cols[pos]}; {scale_text(t['scale'])}input values are "
+                        f"{[None if w is None else fstr(w) for w in want]}")
+            pos += 1
+    if pos != len(names):
+        return f"unexpected extra columns {names[pos:]}"
+    return None
+
+
+def is_numeric_dtype_name(d):
+    d = d.lower()
+    return d.startswith(("int", "uint", "float", "double")) and "object" not in d
+
+
+def strip_msg(r):
+    return {k: v for k, v in r.items() if k != "msg"}
+
+
+def oracle_history(c, o):
+    for i, (k, r, f) in enumerate(zip(c["calls"], o["results"], o["fresh"])):
+        where = f"call {i} of {len(c['calls'])} on one {c['mat']} materializer ({call_formula(k)}, output={k['output']}, na_action={k['na']})"
+        if "error" not in r:
+            for name, col in zip(r["names"], r["cols"]):
+                for x in col:
+                    if isinstance(x, dict) and "s" in x:
+                        return f"{where}: cell {x['s']!r} of column {name!r} is not a number"
+            bad = [d for d in r.get("dtypes", []) if not is_numeric_dtype_name(d)]
+            if bad and dtype_comparable(c, k):
+                return (f"{where}: the matrix is not numeric: its dtype(s) {r.get('dtypes')} include {bad[0]!r} "
+                        f"(an integer or floating-point dtype is required of every column / of the array)")
+        if canonical_obs(strip_msg(r)) != canonical_obs(strip_msg(f)):
+            return f"{where}: the reused object returns {str(strip_msg(r))[:300]}, a new materializer returns {str(strip_msg(f))[:300]}"
+        ev = expected_valid(c, k)
+        if ev is True and "error" in r:
+            return f"{where}: a valid request fails with {r['error']}: {r.get('msg', '')}"
+        if ev is False and "error" not in r:
+            return f"{where}: na_action='raise' with a null present did not raise"
+        if "error" not in r and ev is not None:
+            why = oracle_call(c, k, r)
+            if why:
+                return f"{where}: {why}"
+    return None
+
+
+def canonical_obs(x):
+    import json
+
+    return json.dumps(x, sort_keys=True)
+
+
+# ---------------------------------------------------------------- levels2: level inference over Python scalars
+
+LEVEL_POOLS = MIXED_POOLS + [
+    ["a", "b", "B", "é", "10", "9", "__x", "T.b", "[z]", "a b"],
+    [1, 2, 3, 10, -1, 2**63, -(2**63) - 1],
+    [True, False],
+    [1.5, -0.25, 2.0, 0.5, 100.0, -3.0, 0.125],
+    [b"a", b"b", b"ab", b"B"],
+]
+
+
+def levels2_case(rng):
+    pool = rng.choice(LEVEL_POOLS)
+    n = rng.randint(0, 9)
+    vals = [None if rng.random() < 0.15 else rng.choice(pool) for _ in range(n)]
+    declared = None
+    if rng.random() < 0.3:
+        declared = rng.sample(pool, rng.randint(1, min(4, len(pool))))
+        if isinstance(pool[0], float) or {bool, int} <= {type(x) for x in pool}:
+            declared = None  # (pandas matches values to nominated categories by typed rules: True is not the category 1)
+    return dict(kind="levels2", vals=[pv(v) for v in vals], declared=None if declared is None else [pv(v) for v in declared],
+                output=rng.choice(OUTPUTS + ["narwhals"]) if rng.random() < 0.95 else "bogus",
+                homogeneous_float=bool(pool and isinstance(pool[0], float)), drop_first=rng.random() < 0.5)
+
+
+def impl_levels2(c):
+    from formulaic.model_spec import ModelSpec
+    from formulaic.transforms.contrasts import encode_contrasts
+
+    vals = [unpv(v) for v in c["vals"]]
+    if c["homogeneous_float"]:
+        data = pandas.Series([float("nan") if v is None else v for v in vals], dtype="float64")
+    else:
+        data = pandas.Series(vals, dtype=object)
+    state = {}
+    spec = ModelSpec(formula=[], output=c["output"])
+    try:
+        with warnings.catch_warnings():
+            warnings.simplefilter("ignore")
+            enc = encode_contrasts(data, levels=None if c["declared"] is None else [unpv(v) for v in c["declared"]],
+                                   reduced_rank=False, _state=state, _spec=spec)
+    except Exception as e:
+        return {"error": type(e).__name__, "msg": str(e)[:200]}
+    w = enc.__wrapped__ if hasattr(enc, "__wrapped__") else enc
+    arr = w.toarray() if hasattr(w, "toarray") else numpy.asarray(w)
+    codes = []
+    for i in range(arr.shape[0]):
+        ones = [j for j in range(arr.shape[1]) if arr[i, j] != 0]
+        codes.append(ones[0] if len(ones) == 1 else (None if not ones else "many"))
+    cats = list(state["categories"])
+    out = {"levels": [pv(x) for x in cats], "labels": ["{field}".format(field=x) for x in cats], "codes": codes}
+    # the sparse dummy encoder called directly (its `drop_first` option is not used by the library itself)
+    from formulaic.utils.sparse import categorical_encode_series_to_sparse_csc_matrix
+
+    try:
+        with warnings.catch_warnings():
+            warnings.simplefilter("ignore")
+            lv, mat = categorical_encode_series_to_sparse_csc_matrix(
+                data, levels=None if c["declared"] is None else [unpv(v) for v in c["declared"]], drop_first=c["drop_first"])
+        arr = mat.toarray()
+        sc = []
+        for i in range(arr.shape[0]):
+            ones = [j for j in range(arr.shape[1]) if arr[i, j] != 0]
+            sc.append(ones[0] if len(ones) == 1 else (None if not ones else "many"))
+        out["sparse_levels"] = [pv(x) for x in lv]
+        out["sparse_codes"] = sc
+        out["sparse_shape"] = list(arr.shape)
+    except Exception as e:
+        out["sparse_error"] = type(e).__name__
+    return out
+
+
+def agree_levels2(c, o, m):
+    if "error" in o or "error" in m:
+        if o.get("error") == m.get("error"):
+            return None
+        return f"encode_contrasts: impl {o.get('error', 'ok')} ({o.get('msg', '')}) vs model {m.get('error', 'ok')}"
+    if [canon_pv(x) for x in o["levels"]] != [canon_pv(x) for x in m.get("levels", [])]:
+        return f"levels differ: impl {o['levels']} vs model {m.get('levels')}"
+    if o["labels"] != m.get("labels"):
+        return f"labels differ: impl {o['labels']} vs model {m.get('labels')}"
+    if o["codes"] != m.get("codes"):
+        return f"codes differ: impl {o['codes']} vs model {m.get('codes')}"
+    if "sparse_error" in o:
+        return f"the sparse dummy encoder raised {o['sparse_error']}"
+    if [canon_pv(x) for x in o["sparse_levels"]] != [canon_pv(x) for x in m.get("sparse_levels", [])] or o["sparse_codes"] != m.get("sparse_codes"):
+        return (f"sparse dummy encoder (drop_first={c['drop_first']}): impl levels {o['sparse_levels']} codes {o['sparse_codes']} vs "
+                f"model levels {m.get('sparse_levels')} codes {m.get('sparse_codes')}")
+    if o["sparse_shape"] != [len(c["vals"]), len(o["sparse_levels"])]:
+        return f"sparse dummy matrix has shape {o['sparse_shape']} for {len(c['vals'])} rows and {len(o['sparse_levels'])} levels"
+    return None
+
+
+def oracle_levels2(c, o):
+    d = c["declared"]
+    if d is not None and any(_py_eq(a, b) for i, a in enumerate(d) for b in d[i + 1:]):
+        return None  # a repeated declared level: the property text does not say what happens
+    if c["output"] == "bogus":
+        return None if "error" in o else "an unknown output type was accepted"
+    if "error" in o:
+        return f"encode_contrasts raised {o['error']}: {o.get('msg')}"
+    present = [v for v in c["vals"] if v is not None]
+    lv = o["levels"]
+    if c["declared"] is not None:
+        if [canon_pv(x) for x in lv] != [canon_pv(x) for x in c["declared"]]:
+            return f"levels {lv}; the declared levels are {c['declared']}"
+    elif all("s" in v for v in present):
+        want = sorted({v["s"] for v in present})
+        if [x.get("s") for x in lv] != want:
+            return f"levels {lv}; the sorted distinct text values are {want}"
+    else:
+        for v in present:
+            if sum(1 for l in lv if _py_eq(v, l)) != 1:
+                return f"value {unpv(v)!r} equals {sum(1 for l in lv if _py_eq(v, l))} of the levels {[unpv(l) for l in lv]}"
+        for l in lv:
+            if not any(_py_eq(v, l) for v in present):
+                return f"level {unpv(l)!r} is not a value of the column"
+    for v, code in zip(c["vals"], o["codes"]):
+        want = None
+        if v is not None:
+            hits = [j for j, l in enumerate(lv) if _py_eq(v, l)]
+            want = hits[0] if hits else None
+        if code != want:
+            return f"row value {None if v is None else unpv(v)!r} is coded as level {code}, expected {want} (levels {[unpv(l) for l in lv]})"
+    # the sparse dummy encoder called directly: the same levels (all but the first with drop_first), one indicator column each
+    if "sparse_error" in o:
+        return f"the sparse dummy encoder raised {o['sparse_error']}"
+    slv = lv[1:] if c["drop_first"] else lv
+    if [canon_pv(x) for x in o["sparse_levels"]] != [canon_pv(x) for x in slv]:
+        return f"sparse dummy encoder (drop_first={c['drop_first']}) reports the levels {o['sparse_levels']}; the levels are {lv}"
+    for v, code in zip(c["vals"], o["sparse_codes"]):
+        hits = [] if v is None else [j for j, l in enumerate(slv) if _py_eq(v, l)]
+        if code != (hits[0] if hits else None):
+            return (f"sparse dummy encoder (drop_first={c['drop_first']}): row value {None if v is None else unpv(v)!r} has its 1 in "
+                    f"column {code}, expected {hits[0] if hits else None} (columns {[unpv(l) for l in slv]})")
+    return None
+
+
+# ---------------------------------------------------------------- apply: `TreatmentContrasts.apply` called directly
+
+
+def apply_case(rng):
+    """`contr.treatment(base=...).apply(dummies, levels, reduced_rank, output=None)`: the output type is inferred from the
+    container of the dummy columns (a pandas frame, a numpy array, a sparse matrix)"""
+    pool = rng.choice([["a", "b", "c", "T.b", "__x"], [1, 2, 3, 10], [True, False], ["x", 1, 2]])
+    k = rng.randint(0, min(4, len(pool)))
+    levels = rng.sample(pool, k)
+    n = rng.randint(0, 5)
+    codes = [None if (not levels or rng.random() < 0.2) else rng.randrange(len(levels)) for _ in range(n)]
+    base = None
+    r = rng.random()
+    if r < 0.3 and levels:
+        base = rng.choice(levels)
+    elif r < 0.45:
+        base = "nope"
+    return dict(kind="apply", levels=[pv(x) for x in levels], codes=codes, base=pv(base), reduced=rng.random() < 0.5,
+                container=rng.choice(["pandas", "numpy", "sparse"]), explicit=rng.random() < 0.3)
+
+
+def impl_apply(c):
+    import scipy.sparse
+
+    from formulaic.transforms.contrasts import TreatmentContrasts
+
+    levels = [unpv(x) for x in c["levels"]]
+    arr = numpy.zeros((len(c["codes"]), len(levels)), dtype=float)
+    for i, code in enumerate(c["codes"]):
+        if code is not None:
+            arr[i, code] = 1
+    if c["container"] == "pandas":
+        dummies = pandas.DataFrame(arr, columns=pandas.Index(levels, dtype=object) if levels else None)
+    elif c["container"] == "numpy":
+        dummies = arr
+    else:
+        dummies = scipy.sparse.csc_matrix(arr)
+    contr = TreatmentContrasts() if c["base"] is None else TreatmentContrasts(base=unpv(c["base"]))
+    try:
+        with warnings.catch_warnings():
+            warnings.simplefilter("ignore")
+            enc = contr.apply(dummies, levels=levels, reduced_rank=c["reduced"], output=c["container"] if c["explicit"] else None)
+    except Exception as e:
+        return {"error": type(e).__name__, "msg": str(e)[:160]}
+    names = [str(x) for x in enc.__formulaic_metadata__.column_names]
+    w = enc.__wrapped__
+    out = w.toarray() if hasattr(w, "toarray") else numpy.asarray(w)
+    return dict(names=names, cols=[[cell(x) for x in out[:, j].tolist()] for j in range(out.shape[1])], container=type(w).__name__)
+
+
+def oracle_apply(c, o):
+    levels = c["levels"]
+    if c["base"] is not None and not any(_py_eq(c["base"], l) for l in levels):
+        return None  # no base to compare with: the property text does not say
+    if "error" in o:
+        return f"apply raised {o['error']}: {o.get('msg')}"
+    for name, col in zip(o["names"], o["cols"]):
+        for x in col:
+            if isinstance(x, dict) and "s" in x:
+                return f"cell {x['s']!r} of column {name!r} is not a number"
+    want_container = {"pandas": "DataFrame", "numpy": "ndarray", "sparse": "csc_matrix"}[c["container"]]
+    if o["container"] != want_container and not o["container"].startswith("cs"):
+        return f"dummy columns given as {c['container']} come back as {o['container']}"
+    return None
+
+
+def is_f1(r):
+    return r.get("error") == "TypeError" and "numpy.ndarray" in r.get("msg", "") and "Unsupported dataframe type" in r.get("msg", "")
+
+
+def classify(c, o, why):
+    """C08-F1: output='narwhals' and a matrix without any column -> TypeError from narwhals.from_native (see known_findings.json).
+    Only when that is the ONLY thing wrong: every failing call is of that shape, and a new materializer fails alike."""
+    if c.get("kind") != "history" or "results" not in o:
+        return None
+    hits = [i for i, (k, r, f) in enumerate(zip(c["calls"], o["results"], o["fresh"]))
+            if k["output"] == "narwhals" and is_f1(r) and is_f1(f)]
+    if not hits:
+        return None
+    # re-run the oracle with those calls taken out: nothing else may be wrong
+    rest = [i for i in range(len(c["calls"])) if i not in hits]
+    c2 = dict(c, calls=[c["calls"][i] for i in rest])
+    o2 = dict(results=[o["results"][i] for i in rest], fresh=[o["fresh"][i] for i in rest])
+    return "C08-F1" if oracle_history(c2, o2) is None else None
+
+
 LEVEL_TEXT = (
-    "Proof: Lean theorems (Props/C08.lean). Two are decided over the kind table regenerated on every run from the live "
-    "`_is_categorical` of both materializers (narwhals on pandas and on pyarrow input) on one probe series per dtype: every "
-    "text and categorical dtype is CATEGORICAL, every numeric/bool dtype NUMERICAL. For ALL value lists the model's level "
-    "list is THE strictly sorted duplicate-free list of the non-null values (declared order for a categorical dtype), every "
-    "dummy column is the indicator of its level, numeric columns pass through unchanged, and hence every cell of the "
-    "model's matrix is a number for every frame, null policy and materializer. The model is tied to the code by a "
-    "differential correspondence on every run (names and exact values for every dtype x output x materializer)."
+    "Proof: Lean theorems (Props/C08.lean, 42 obligations). Decided over tables regenerated on every run from the live package: "
+    "every text and categorical dtype is CATEGORICAL and every numeric/bool dtype NUMERICAL for both materializers (narwhals on "
+    "pandas and on pyarrow input); the dtype of the returned matrix is an integer or floating-point dtype for every dtype label x "
+    "route x output, under a literal scale, for the intercept and for any two columns stacked; the live column-name templates "
+    "are the modelled ones for all names; the registered output types are the four modelled. Proved for ALL inputs: the level "
+    "list inferred from any column of Python scalars is duplicate-free, covers exactly the non-null values, is represented by "
+    "first occurrences, is sorted (non-text then text, each strictly increasing) whenever Python can sort and in first-seen "
+    "order exactly when it cannot (the comparison sort is a modelled insertion sort that fails iff an unorderable pair exists); "
+    "for text it is THE strictly sorted list of the distinct strings; declared categories are used in declared order; every "
+    "dummy column is the indicator of its level; treatment coding drops exactly the base column and fails iff the base is no "
+    "level; user-given contrast columns hold the user's weights; numeric columns pass through; a literal scales every cell; the "
+    "intercept is ones. For ANY history of valid and failing calls on one materializer object, from any cache content, every "
+    "call returns what a new object returns, which is the cache-free reference of that call, and every cell of every returned "
+    "matrix is a number and every reported dtype numeric. The models are tied to the code by differential correspondence on "
+    "every run (names, exact values, dtypes, error classes; every dtype x output x route; histories on one object)."
 )
 LEVEL_NOTE = (
-    "Trusted: Lean kernel + propext/Classical.choice/Quot.sound; the dtype probe list; the hand model of kind inference -> "
-    "level discovery -> dummy coding for main-effects formulas validated by correspondence; pandas' category machinery, "
-    "get_dummies and the narwhals/pyarrow conversions are observed, not proved (partial)."
+    "Trusted: Lean kernel + propext/Classical.choice/Quot.sound; the dtype probe list; the hand models of kind inference -> "
+    "level discovery -> coding -> assembly for main-effects formulas, validated by correspondence; pandas' factorize/sort/"
+    "Categorical/get_dummies, numpy/scipy/pandas type promotion and the narwhals/pyarrow conversions are modelled or tabulated "
+    "and observed, not proved."
 )
